@@ -112,6 +112,21 @@ KANI_UNITS["vk_mpsc"] = {
     "bounded": {r".*": "capacity <= 2, queue length <= 2, histories of <= 8 calls"},
 }
 
+KANI_UNITS["vk_uf"] = {
+    "mode": "dep", "crate": "contracts/kani/vk_uf", "props": ["C17"],
+    "gen": [("src/union_find.rs.in", "src/union_find.rs")],
+    "what": "dfir_lang/src/union_find.rs extracted verbatim (whole file); find/union/same_set against an equivalence-closure matrix",
+    "instantiation": "3 slotmap keys",
+    "bounded": {r".*": "3 keys, reachable states after <= 2 unions from empty, recursion unwound 6"},
+}
+
+KANI_UNITS["vk_var"] = {
+    "mode": "dep", "crate": "contracts/kani/vk_var", "props": ["C10"],
+    "what": "variadics::VariadicColumnMultiset (real crate) against a multiset-of-tuples oracle",
+    "instantiation": "schema var_type!(u8, u8)",
+    "bounded": {r".*": "<= 3 inserted tuples (Vec columns)"},
+}
+
 # property -> list of (engine, unit, harness filters or None, tiers)
 PROPS = {
     "C01": [("verus", "lat_ord"), ("verus", "lat_wrap"), ("verus", "lat_pair"), ("verus", "lat_dom"),
@@ -154,6 +169,10 @@ PROPS["C14"] = [("kani", "ov_sink", ["vk_harness"], ("quick", "thorough"))]
 
 PROPS["C13"] = [("kani", "ov_pipes", ["symmetric_hash_join"], ("quick", "thorough"))]
 
+PROPS["C17"] = [("kani", "vk_uf", ["union_find::harness"], ("quick", "thorough"))]
+
+PROPS["C10"] = [("kani", "vk_var", ["harness::"], ("quick", "thorough"))]
+
 LEVEL = {
-    "C01": "other", "C02": "other", "C03": "other", "C04": "other", "C09": "other", "C15": "other", "C11": "other", "C12": "other", "C14": "other", "C13": "other",
+    "C01": "other", "C02": "other", "C03": "other", "C04": "other", "C09": "other", "C15": "other", "C11": "other", "C12": "other", "C14": "other", "C13": "other", "C17": "other", "C10": "other",
 }
